@@ -15,6 +15,7 @@ RULE = ("plans: rule lists of 0-8 rules over a generated filter grammar (==, !=,
         "filterless rules, deny at any position, duplicates) x 2-4 connectors each wired to its own observable upstream (+ a TCP-only load balancer) x 1-6 "
         "concurrent requests varying listener, client address (IPv4, IPv6, v4-mapped), target (domain/IPv4/IPv6), port and feature (TCP/UDP), each with payload "
         "sent eagerly behind the handshake; non-trivial = the rule list has >= 2 rules and the decision differs between at least two requests or a deny/no-match occurred")
+RULE_MORE = "Later additions: diverted (TPROXY TCP) requests; v4-compatible IPv6 sources; IPv4 destinations spelled as IPv4-mapped IPv6 literals, as an address and in a name field; anchored plain-text regex patterns derived from the plan's hosts; a SOCKS4 upstream as routing target."
 LEVEL_TEXT = ("seeded exploration of the real dispatch path (process_request, Rule::evaluate, milu, connectors' feature sets) that no test calls: the harness owns an "
               "independent evaluator for the generated grammar and observes which upstream is contacted, what the client is told, what the API history records, "
               "and whether any byte of a refused client's payload shows up anywhere")
